@@ -194,9 +194,14 @@ func c13RoundTrip(r *hx.Run, tag string, p protocol.Protocol, dids []*fx.DIDOps,
 
 func c13(r *hx.Run) {
 	fx.Quiet()
-	r.Rule = "every sequence of length 1..4 (thorough 5) over {create, update, recover, deactivate} x 3 DIDs (all mixes, orders, repeated suffixes, single-type batches), plus every sequence of length <=3 over an alphabet with expired-marked operations and second updates, plus maximum-size batches for MaxOperationCount in {1,2,5,50}, for SHA2-256 (and Ed25519/P-256), is written by the real OperationHandler to an in-memory CAS and read back by the real OperationProvider; the result must be the first queued non-expired operation per suffix, JSON-equal, with embedded anchor origin, ordered create/recover/update/deactivate, count = anchor string count, and included+deferred+expired = queued. Non-trivial: every batch that is read back."
+	r.Rule = "every sequence of length 1..4 (thorough 5) over {create, update, recover, deactivate} x 3 DIDs (one of them with unusual content: non-ASCII / escaped strings, nested anchor-origin object, several patches, kid header, nonce, anchoring windows) (all mixes, orders, repeated suffixes, single-type batches), plus every sequence of length <=3 over an alphabet with expired-marked operations and second updates, plus maximum-size batches for MaxOperationCount in {1,2,5,50}, for SHA2-256 (and Ed25519/P-256), is written by the real OperationHandler to an in-memory CAS and read back by the real OperationProvider; the result must be the first queued non-expired operation per suffix, JSON-equal, with embedded anchor origin, ordered create/recover/update/deactivate, count = anchor string count, and included+deferred+expired = queued. Non-trivial: every batch that is read back."
 	p := fx.DefaultProtocol()
-	dids := []*fx.DIDOps{fx.NewDIDOps(fx.Ed25519, fx.SHA256, "a"), fx.NewDIDOps(fx.Ed25519, fx.SHA256, "b"), fx.NewDIDOps(fx.P256, fx.SHA256, "c")}
+	dids := []*fx.DIDOps{fx.NewDIDOps(fx.Ed25519, fx.SHA256, "a"), fx.NewRichDIDOps(fx.Ed25519, fx.SHA256, "b"), fx.NewDIDOps(fx.P256, fx.SHA256, "c")}
+	for k, req := range dids[1].Req { // the rich requests must be valid on their own
+		if _, err := fx.NewVersion(p, &fx.VersionOpts{ParserOpts: []operationparser.Option{operationparser.WithAnchorTimeValidator(expiryValidator{})}}).Parser.Parse("did:sidetree", req); err != nil && !strings.HasSuffix(k, "x") {
+			panic(fmt.Sprintf("rich request %s is not valid: %v", k, err))
+		}
+	}
 	var alpha []qsym
 	for d := 0; d < 3; d++ {
 		for _, k := range []string{"C", "U", "R", "D"} {
